@@ -346,17 +346,23 @@ func (st *programState) runSaveStatement(saveStatement parser.SaveStatement) ([]
 
 	balance := st.getCachedBalance(*account, *asset)
 
+	// Do not allow negative saves
+	if amt != nil && amt.Cmp(big.NewInt(0)) == -1 {
+		return nil, NegativeAmountErr{
+			Range:  saveStatement.SentValue.GetRange(),
+			Amount: MonetaryInt(*amt),
+		}
+	}
+
+	// there is nothing to save in an overdrawn account
+	// (setting its balance to 0 would be a credit)
+	if balance.Cmp(big.NewInt(0)) == -1 {
+		return nil, nil
+	}
+
 	if amt == nil {
 		balance.Set(big.NewInt(0))
 	} else {
-		// Do not allow negative saves
-		if amt.Cmp(big.NewInt(0)) == -1 {
-			return nil, NegativeAmountErr{
-				Range:  saveStatement.SentValue.GetRange(),
-				Amount: MonetaryInt(*amt),
-			}
-		}
-
 		// we decrease the balance by "amt"
 		balance.Sub(balance, amt)
 		// without going under 0
